@@ -55,6 +55,7 @@ type Verifier struct {
 	pureCalls        map[string]bool
 	symDepth         int
 	opaqueCalls      bool
+	lastCallQual     string // qualified name of the call being anchored (binary.Write, io.Writer.Write): cut targets may use it
 	cutFired         map[int]bool     // cuts of the function under analysis that matched an anchor on some path of some partition
 	nullableResults  bool             // option nullable-results
 	opaqueWrites     map[string][]int // option opaque-writes F:k: the opaque callee F overwrites what its k-th argument (receiver = 0) points to
@@ -754,7 +755,7 @@ func (fr *Frame) anchor(st *State, kind, target string, idx int) {
 	st.cnt[key]++
 	n := st.cnt[key]
 	for ci, c := range fr.c.Cuts {
-		if c.Kind != kind || c.Target != target || c.Ord != n {
+		if c.Kind != kind || (c.Target != target && (fr.v.lastCallQual == "" || c.Target != fr.v.lastCallQual || (kind != "call" && kind != "beforecall"))) || (c.Ord != 0 && c.Ord != n) {
 			continue
 		}
 		if kind == "store" && c.Index != idx {
@@ -815,8 +816,8 @@ func (fr *Frame) applyAnnot(st *State, a *Annot, label string, assert, assumeAft
 
 func (fr *Frame) havocNamed(st *State, name string, label string) {
 	v := fr.v
-	if _, isGhost := st.ghosts[name]; isGhost {
-		st.ghosts[name] = v.F.Fresh("g!"+name, SInt)
+	if g, isGhost := st.ghosts[name]; isGhost {
+		st.ghosts[name] = v.F.Fresh("g!"+name, g.S) // an arbitrary value of the ghost's own sort (integer or boolean)
 		return
 	}
 	val, ok := st.srcVar[name]
@@ -1160,6 +1161,9 @@ func contractKey(rel string, c *Contract) string {
 	k := rel + "." + c.Func
 	if c.Layer != "" {
 		k += "@" + c.Layer
+	}
+	if c.Variant != "" {
+		k += "#" + c.Variant // variants are verified, never applied at call sites
 	}
 	return k
 }
